@@ -7,6 +7,7 @@ mod conv;
 mod sexp;
 mod layout;
 mod front;
+mod core;
 
 use std::io::{BufRead, Write};
 use std::panic::{catch_unwind, AssertUnwindSafe};
@@ -34,6 +35,7 @@ fn main() {
     let handler: fn(&str) -> Result<String, String> = match cmd {
         "layout" => layout::handle,
         "front" => front::handle,
+        "core" => core::handle,
         _ => {
             eprintln!("unknown command {cmd}");
             std::process::exit(2);
